@@ -10,9 +10,10 @@ import ast
 import os
 import subprocess
 
-SRC = '/repo/src/gemdat'
-GEN = '/verif/coq/Gen'
-COQ = '/verif/coq'
+_V = os.path.dirname(os.path.dirname(os.path.abspath(__file__)))
+SRC = os.path.join(os.environ.get('VERIF_REPO', '/repo'), 'src', 'gemdat')
+GEN = os.path.join(_V, 'coq', 'Gen')
+COQ = os.path.join(_V, 'coq')
 
 
 class Unsupported(Exception):
